@@ -89,12 +89,12 @@ Qed.
 Lemma sift_down_is_extract_step : forall f ns i lidx sz nk nv ok ov, rep ns nk nv ->
   (lidx < length ns)%nat -> (sz < lidx)%nat -> (i < length ns)%nat ->
   let last := getn ns lidx in
-  let r := ref_extract_step (kfz kf) nk nv (Z.of_nat i) (Z.of_nat sz) (Z.of_nat lidx) in
+  let r := ref_extract_step (kfz kf) nk nv (Z.of_nat i) (Z.of_nat lidx) (Z.of_nat sz) in
   (g_tag r = 10 /\ exists c, g_vals r = [Z.of_nat c] /\ (c < length ns)%nat /\
      exists ns', rep ns' (g_a r) (g_b r) /\ length ns' = length ns /\ getn ns' lidx = last /\
                  sift_down kf (S f) ns i last sz = sift_down kf f ns' c last sz)
   \/ (g_tag r = 50 /\ g_vals r = [Z.of_nat i] /\
-      let p := ref_extract_post (g_a r) (g_b r) (Z.of_nat i) (Z.of_nat sz) ok ov (Z.of_nat lidx) in
+      let p := ref_extract_post (g_a r) (g_b r) (Z.of_nat i) (Z.of_nat lidx) (Z.of_nat sz) ok ov in
       g_tag p = 0 /\ exists ns', rep ns' (g_a p) (g_b p) /\ sift_down kf (S f) ns i last sz = Some ns').
 Proof.
   intros f ns i lidx sz nk nv ok ov R Hl Hs Hi last. unfold ref_extract_step. cbn [sift_down]. cbv zeta.
@@ -135,7 +135,7 @@ Lemma remove_loop_is_remove_step : forall f ns idx lidx sz nk nv, rep ns nk nv -
      exists ns', rep ns' (g_a r) (g_b r) /\ length ns' = length ns /\ getn ns' lidx = last /\
                  remove_loop kf (S f) ns idx last sz = remove_loop kf f ns' c last sz)
   \/ (g_tag r = 50 /\ g_vals r = [Z.of_nat idx] /\
-      let p := ref_remove_post (g_a r) (g_b r) (Z.of_nat idx) (Z.of_nat sz) (Z.of_nat lidx) in
+      let p := ref_remove_post (g_a r) (g_b r) (Z.of_nat idx) (Z.of_nat lidx) (Z.of_nat sz) in
       g_tag p = 0 /\ exists ns', rep ns' (g_a p) (g_b p) /\ remove_loop kf (S f) ns idx last sz = Some ns').
 Proof.
   intros f ns idx lidx sz nk nv R Hl Hs Hi last. unfold ref_remove_step. cbn [remove_loop]. cbv zeta.
@@ -205,7 +205,7 @@ Lemma ins_inner_is_inner_step : forall tmp base j a pa pb i, repa base a pa -> (
      exists a', repa base a' (g_a r) /\ length a' = length a /\
                 ins_inner kf tmp base j a = ins_inner kf tmp base j' a')
   \/ (g_tag r = 51 /\ g_vals r = [Z.of_nat j] /\
-      let p := ref_ins_inner_post (g_a r) (g_b r) (Z.of_nat j) (Z.of_nat tmp) i in
+      let p := ref_ins_inner_post (g_a r) (g_b r) (Z.of_nat j) i (Z.of_nat tmp) in
       g_tag p = 10 /\ exists a', repa base a' (g_a p) /\ ins_inner kf tmp base j a = a').
 Proof.
   intros tmp base j a pa pb i R Hj. unfold ref_ins_inner_step.
